@@ -9,6 +9,7 @@
     defrag <0|1>                                                         -> ok <0|1> ; <state>
     get <k>                                                              -> some <val> | none ; <state>
     browse <k:fl,k:fl|->               walk returns fl for key k         -> <k=len.hash,…|-> ; <state>
+    browseall <k:fl,k:fl|->            BrowseAll, walk returns fl for key k (as browse; NO_BROWSE records too)
     peek                               Count, then BrowseAll (walk returns 0)  -> <n> <k=len.hash,…|-> ; <state>
     count                                                                -> <n>
     crashat <name:size,…|->            the process died inside the last state-changing request: continue (closed) on
@@ -154,6 +155,10 @@ def step (s : S) (toks : List String) : S × String :=
   | ["browse", w] =>
     match parseWalk w with
     | some w => mutate s fun db => let (d, out) := browse db w; (d, kvStr out)
+    | none => bad
+  | ["browseall", w] =>
+    match parseWalk w with
+    | some w => mutate s fun db => let (d, out) := browseAll db w; (d, kvStr out)
     | none => bad
   | ["peek"] => mutate s fun db => let (d, out) := browseAll db []; (d, s!"{count d} {kvStr out}")
   | ["count"] =>
